@@ -39,6 +39,19 @@ def load_mutants(pid):
                     continue
                 if mj.get("property") == pid:
                     out.append({"id": "seeded-" + name, "kind": "seed", "desc": "independent seeded change " + name, "edits": [], "patch": patch})
+    # independently written behaviour-preserving variants (/verif/refactorings/<name>/patch.diff): those recorded as silent for
+    # all checks in STATUS.json must stay silent for this property too
+    rd = os.path.join(os.path.dirname(os.path.dirname(os.path.abspath(__file__))), "refactorings")
+    stf = os.path.join(rd, "STATUS.json")
+    if os.path.exists(stf):
+        try:
+            status = json.load(open(stf)).get("status", {})
+        except ValueError:
+            status = {}
+        for name in sorted(status):
+            patch = os.path.join(rd, name, "patch.diff")
+            if status[name] == "silent" and os.path.exists(patch):
+                out.append({"id": "ref-" + name, "kind": "control", "desc": "independent behaviour-preserving variant " + name, "edits": [], "patch": patch})
     return out
 
 
